@@ -2,7 +2,7 @@ import json,sys
 pid=sys.argv[1]; focus=sys.argv[2]
 import subprocess
 base=subprocess.run(['python3','/tmp/seed-prompt.py',pid],capture_output=True,text=True).stdout
-base=base.replace(f'/tmp/seed-{pid}',f'/tmp/seed4-{pid}')
+base=base.replace(f'/tmp/seed-{pid}',f'/tmp/seed5-{pid}')
 base=base.replace('YOUR TASK:',f'FOCUS FOR THIS ASSIGNMENT: your two changes should violate these parts of the statement (other engineers cover the rest): {focus}.\n\nYOUR TASK:')
-base+=f"\n\nAdditional rules: name your demo tests TestSeed4{pid}_1… and TestSeed4{pid}_2…; do not use `git stash` (shared between worktrees) — revert with `git checkout -- <file>`; ignore files named verif_on.go / verif_off.go and `verifPoint(...)` calls (test instrumentation, no-op in normal builds): do not build your change or demo on them."
+base+=f"\n\nAdditional rules: name your demo tests TestSeed5{pid}_1… and TestSeed5{pid}_2…; do not use `git stash` (shared between worktrees) — revert with `git checkout -- <file>`; ignore files named verif_on.go / verif_off.go and `verifPoint(...)` calls (test instrumentation, no-op in normal builds): do not build your change or demo on them."
 print(base)
